@@ -632,12 +632,15 @@ func RunCase(r *prng.R, p *Profile, id string) *sexp.S {
 	srcs := sexp.L(sexp.A("srcs"))
 	// split the nodes across 1-3 readers
 	cut := 0
+	altFrom, nReaders := 0, 0
 	for cut < len(prog.Nodes) {
 		k := len(prog.Nodes) - cut
 		if r.Intn(3) == 0 && k > 1 {
 			k = 1 + r.Intn(k-1)
 		}
 		srcs.Add(sexp.Str(layout.ReaderEnd(layout.Render(prog.Nodes[cut : cut+k]))))
+		altFrom = cut
+		nReaders++
 		cut += k
 	}
 	vars := sexp.L(sexp.A("vars"))
@@ -666,12 +669,21 @@ func RunCase(r *prng.R, p *Profile, id string) *sexp.S {
 	ops := sexp.L(sexp.A("ops"))
 	nr := 1
 	nsnaps := 0
+	// a further runner is either one of the same script or, when the script comes in several readers, one whose LAST reader
+	// is another version of that file (its nodes greet with ENTER instead of enter): runners that share their first files
+	// only must not share anything else
+	newOp := func() string {
+		if nReaders >= 2 && r.Intn(2) == 0 {
+			return "newalt"
+		}
+		return "new"
+	}
 	for i := 0; i < p.Ops; i++ {
 		j := r.Intn(nr)
 		x := r.Intn(16)
 		if p.SnapOps == 0 && nr < p.Runners && r.Intn(5) == 0 {
 			// a further runner of the same script, created while the others are under way
-			ops.Add(sexp.L(sexp.A("new"), sexp.N(nr)))
+			ops.Add(sexp.L(sexp.A(newOp()), sexp.N(nr)))
 			nr++
 			continue
 		}
@@ -680,7 +692,7 @@ func RunCase(r *prng.R, p *Profile, id string) *sexp.S {
 			switch r.Intn(6) {
 			case 0:
 				if nr < p.Runners {
-					ops.Add(sexp.L(sexp.A("new"), sexp.N(nr)))
+					ops.Add(sexp.L(sexp.A(newOp()), sexp.N(nr)))
 					nr++
 					continue
 				}
@@ -736,9 +748,13 @@ func RunCase(r *prng.R, p *Profile, id string) *sexp.S {
 			ops.Add(sexp.L(sexp.A("resnap"), sexp.N(k)))
 		}
 	}
-	c := sexp.L(sexp.A("case"), sexp.A("run"), sexp.A(id), srcs, prog.Sexp(), sexp.L(sexp.A("seed"), sexp.Str(r.Pick("seed", "abc", "0", "z9", "verif1", "savegame00042", "zzzzzzzzzzzzzz", "chapter1scene2take3000", "1y2p0ij32e8e8"))), vars, ops)
+	c := sexp.L(sexp.A("case"), sexp.A("run"), sexp.A(id), srcs, prog.Sexp(), sexp.L(sexp.A("seed"), sexp.Str(r.Pick("seed", "abc", "0", "z9", "verif1", "savegame00042", "zzzzzzzzzzzzzz", "chapter1scene2take3000", "1y2p0ij32e8e8"))), vars)
+	defer c.Add(ops) // the operations come last (the shrinker of the check cuts them from the end of the line)
 	if bare {
 		c.Add(sexp.L(sexp.A("bare")))
+	}
+	if nReaders >= 2 {
+		c.Add(sexp.L(sexp.A("altfrom"), sexp.N(altFrom)))
 	}
 	if g.hostWait {
 		// the host has handlers of its own under the names of the two built-ins: "wait" is replaced by it, "stop" never reaches it
